@@ -215,16 +215,18 @@ def gen_path(rng, here, rep=None):
     q = rng.random()
     if s[:1] in ('/', '\\') or (q < 0.08 and not s):
         s = '.' + s               # only the explicit branches below produce absolute strings
-    if s[1:2] == ':' and s[2:3] in ('/', '\\'):
-        s = './' + s
     if q < 0.08:
         s += '/'
+        if s[1:2] == ':' and s[2:3] in ('/', '\\'):
+            s = './' + s          # drive + separator would be absolute
     elif q < 0.11:
         s = '/nonexistent-c19/' + s.strip('/\\.') + 'q'
     elif q < 0.13:
         s = 'c:/' + s.strip('/\\.') + 'q'
     elif q < 0.15:
         s = '\\' + s.strip('/\\.') + 'q'
+    elif s[1:2] == ':' and s[2:3] in ('/', '\\'):
+        s = './' + s
     if rep is not None:
         rep.count('path:' + ('ups%d' % min(ups, 3)) + (':abs' if s[:1] in '/\\' else ''))
     return s
@@ -533,7 +535,9 @@ def oracle_tree(t, log, end, src):
             if isinstance(r, tuple):
                 if r[1] != exp:
                     o = t.origin.get(r[1])
-                    where = 'another script (%s)' % '/'.join(o[0]) if o and o[0] != d else 'this script'
+                    where = ('another script (%s)' % ('/'.join(o[0]) or '<root>') if o and o[0] != d else
+                             'this script but not as its latest earlier assignment in this execution' if o else
+                             'some other execution')
                     bad.append(('script %r reads %s = %r, which was assigned in %s; its own latest assignment is %r' % (
                         cur, x, r[1], where, exp), ('scope-leak',)))
             elif exp is not None:
@@ -715,6 +719,7 @@ def stage_paths(rep, rng, n):
 def stage_real_configure(rep, rng, n, bi_build):
     """system level: the same kind of generated tree through the real `bfg9000 configure` (a subprocess)"""
     bad = 0
+    bi_build = [b for b in bi_build if b not in ('_rec', '_out', '_outdir')]     # the probes exist only in-process
     d = common.scratch('c19r')
     try:
         for i in range(n):
@@ -1066,6 +1071,71 @@ def stage_persist(rep, rng, n):
     return bad
 
 
+OUTPUT_BUILTINS = [
+    ('copy_file', "copy_file('out.txt', 'data.txt')"),
+    ('copy_file-noname', "copy_file(file='data.txt')"),
+    ('copy_file-directory', "copy_file(file='data.txt', directory='d')"),
+    ('build_step', "build_step('gen.txt', cmd=['touch', 'gen.txt'])"),
+    ('build_step-list', "build_step(['g1.txt', 'g2.txt'], cmd=['touch', 'g1.txt', 'g2.txt'])[1]"),
+    ('object_file', "object_file('obj', 'x.c')"),
+    ('object_file-noname', "object_file(file='x.c')"),
+    ('executable', "executable('prog', ['x.c'])"),
+    ('static_library', "static_library('st', ['x.c'])"),
+    ('shared_library', "shared_library('sh', ['x.c'])"),
+]
+
+
+def stage_output_builtins(rep, depth=2):
+    """direct oracle: every builtin that creates a built file, called inside a (nested) submodule, must place it
+    under the matching build subdirectory"""
+    from bfg9000 import build
+    _setup_impl()
+    d = common.scratch('c19b')
+    bad = 0
+    try:
+        src, bld = os.path.join(d, 'src'), os.path.join(d, 'bld')
+        chain = ['sub', 'in ner'][:depth]
+        sub = os.path.join(src, *chain)
+        os.makedirs(sub)
+        os.makedirs(bld)
+        with open(os.path.join(src, FN_BUILD), 'w') as f:
+            f.write("submodule(%r)\n" % chain[0])
+        if depth > 1:
+            with open(os.path.join(src, chain[0], FN_BUILD), 'w') as f:
+                f.write("submodule(%r)\n" % chain[1])
+        open(os.path.join(sub, 'x.c'), 'w').write('int main(void) { return 0; }\n')
+        open(os.path.join(sub, 'data.txt'), 'w').write('x\n')
+        with open(os.path.join(sub, FN_BUILD), 'w') as f:
+            for name, expr in OUTPUT_BUILTINS:
+                f.write("try:\n    _rec('outb', %r, repr(%s.path))\nexcept Exception as e:\n"
+                        "    _rec('outb', %r, 'exception ' + type(e).__name__ + ': ' + str(e))\n" % (name, expr, name))
+        env = make_env(src, bld)
+        _STATE['log'] = []
+        cwd = os.getcwd()
+        try:
+            build.configure_build(env)
+        finally:
+            os.chdir(cwd)
+        want = '`$(builddir)/' + '/'.join(chain) + '/'
+        seen = {}
+        for r in _STATE['log']:
+            if r[2] == 'outb':
+                seen[r[3]] = r[4]
+        for name, expr in OUTPUT_BUILTINS:
+            got = seen.get(name, 'no record')
+            rep.case('outb:%s:%d' % (name, depth), True)
+            rep.count('outb:' + ('ok' if got.startswith(want) else 'elsewhere'))
+            if not got.startswith(want):
+                bad += 1
+                rep.fail('%s inside submodule %r creates %s, not a path under %s...' % (expr, '/'.join(chain), got, want),
+                         {'builtin': name, 'expr': expr, 'submodule': '/'.join(chain), 'output': got, 'expected_prefix': want},
+                         classes=('output-not-relative:' + name.split('-')[0],))
+    finally:
+        shutil.rmtree(d, ignore_errors=True)
+    rep.stage('oracle:output-builtins', builtins=len(OUTPUT_BUILTINS), failures=bad)
+    return bad
+
+
 # ------------------------------------------------------------------------------------- entry points
 def load_corpus():
     out = []
@@ -1098,20 +1168,23 @@ def run(rep):
     rep.proof_stage(coqchk=thorough)
     bi_build, bi_opts = builtin_names('build'), builtin_names('options')
     corpus = load_corpus()
-    n = 2500 if thorough else 350
+    n = 6000 if thorough else 350
     dis, found = stage_scope(rep, rng, n, bi_build, bi_opts, [c['tree'] for c in corpus if 'tree' in c])
     if dis and not found:
         dis2, found = stage_scope(rep, rng, n * 10, bi_build, bi_opts)
     report_dis(rep, 'W:scope', dis, found)
-    pdis = stage_paths(rep, rng, 6000 if thorough else 1500)
+    pdis = stage_paths(rep, rng, 20000 if thorough else 1500)
     report_dis(rep, 'W:paths', pdis, found)
-    udis, ufound = stage_userargs(rep, rng, 4000 if thorough else 600)
+    udis, ufound = stage_userargs(rep, rng, 10000 if thorough else 600)
     if udis and not ufound:
         _, ufound = stage_userargs(rep, rng, 6000)
     report_dis(rep, 'W:userargs', udis, ufound)
     stage_options_file(rep, rng, 300 if thorough else 60, bi_opts)
-    stage_real_configure(rep, rng, 25 if thorough else 3, bi_build)
-    stage_persist(rep, rng, 6 if thorough else 1)
+    stage_output_builtins(rep, 2)
+    if thorough:
+        stage_output_builtins(rep, 1)
+    stage_real_configure(rep, rng, 40 if thorough else 3, bi_build)
+    stage_persist(rep, rng, 8 if thorough else 1)
 
 
 def replay(rep, path):
